@@ -18,7 +18,7 @@ STRUCTURAL = re.compile(
     r"|as std::convert::From<std::vec::Vec<T>>>::from|as std::convert::From<std::result::Result<T, rscel::types::cel_error::CelError>>>::from"
     r"|_serde::(Serialize|Deserialize)|as rscel_to_sql::traits::SqlBuilder>::to_sql"
     r"|IdentFilterIter<'a> as std::iter::Iterator>::next"
-    r"|CelCompiler::<'l>::reads_clock")
+    r"|CelCompiler::<'l>::reads_clock|CelCompiler::<'l>::holds_error")
 STRUCTURAL_WHY = ("recursion over an owned value (AST / CelValue / serde_json::Value / SqlBuilder tree / nested bytecode): "
                   "depth = nesting depth of a value the guarded parser or evaluator produced; IdentFilterIter::next is a tail self-call "
                   "per skipped element")
